@@ -193,6 +193,8 @@ type readerStrings struct {
 	quotedRet ssa.Value // value returned for a quoted string token
 	rawRet    ssa.Value
 	kwRet     ssa.Value
+	// string results that are not a delimiter-stripped token passed through the replacement tables
+	foreign []ssa.Instruction
 }
 
 func findReaderStrings(w *World, e *Engine) (*readerStrings, string) {
@@ -239,6 +241,9 @@ func findReaderStrings(w *World, e *Engine) (*readerStrings, string) {
 		}
 		sl, ok := base.(*ssa.Slice)
 		if !ok {
+			if c, isCall := unboxedCall(base); !isCall || c.Call.StaticCallee() == nil || !inModule(c.Call.StaticCallee()) {
+				rs.foreign = append(rs.foreign, rt[0].(*ssa.Return))
+			}
 			continue
 		}
 		lo := int64(-1)
@@ -310,6 +315,15 @@ func replacerPairs(w *World, v ssa.Value) ([]replPair, bool) {
 	return nil, false
 }
 
+// unboxedCall: the call v is the result (or a component of the result) of.
+func unboxedCall(v ssa.Value) (*ssa.Call, bool) {
+	if ex, ok := v.(*ssa.Extract); ok {
+		v = ex.Tuple
+	}
+	c, ok := v.(*ssa.Call)
+	return c, ok
+}
+
 func pairSet(ps []replPair, invert bool) string {
 	var s []string
 	for _, p := range ps {
@@ -336,6 +350,14 @@ func checkC06(w *World, r *Report) {
 	keywordInjectiveRule(w, r, "C06.keyword")
 	printerRules(w, r, "C06.one-escaper")
 	intInverseRule(w, r, "C06.int")
+	// "yields a value equal to the original": the equality the round trip is judged by
+	r.include("C06.equal-", "C14.", "the value read back must be equal to the original under =, so = must be structural equality on data", checkC14, func(rule string) bool {
+		switch rule {
+		case "C14.presence", "C14.kinds", "C14.gate", "C14.symmetric-shape", "C14.go-equality", "C14.entry":
+			return true
+		}
+		return false
+	})
 	ps, why := findPrinterStringBranches(w, e)
 	if why != "" {
 		r.undecided("C06.escape", nil, "printer string branches", token.NoPos, why)
@@ -345,6 +367,9 @@ func checkC06(w *World, r *Report) {
 	if why != "" {
 		r.undecided("C06.escape", nil, "reader string cases", token.NoPos, why)
 		return
+	}
+	for _, ret := range rs.foreign {
+		r.bad("C06.escape", rs.fn, "string result decoded outside the un-escape table", ret.Pos(), "read_atom returns a string that is not the delimiter-stripped token passed through the replacement table: whatever that decoder accepts beyond the printer's escapes (or decodes differently) yields strings the printer cannot write back readably")
 	}
 	// quoted form
 	P, pbase := replaceChain(ps.quoted[1])
@@ -655,6 +680,33 @@ func checkC16(w *World, r *Report) {
 			}
 		}
 	}
+	// a collection exists only after read_list matched its brackets
+	r.rule("C16.matched", "the functions that read a bracketed collection (the callers of read_list in the reader) answer successfully only after their read_list call: read_list is the one place where the token that closes a collection is compared with the closer of the bracket that opened it, so no collection is accepted on a closing token of another kind")
+	nm := 0
+	for _, fn := range w.pkgFuncs("reader") {
+		calls := staticCallsTo(fn, readList)
+		if len(calls) == 0 || fn == readList || len(staticCallsTo(readList, fn)) > 0 {
+			continue // the dispatcher read_list itself calls for each element reads atoms and reader macros too
+		}
+		for _, rt := range (&evalModel{}).returns(fn) {
+			ret := rt[0].(*ssa.Return)
+			v, _ := rt[1].(ssa.Value)
+			ev, _ := rt[2].(ssa.Value)
+			_ = ev
+			if v == nil || isNilConst(v) {
+				continue
+			}
+			nm++
+			after := false
+			for _, c := range calls {
+				if c.Block() == ret.Block() || c.Block().Dominates(ret.Block()) {
+					after = true
+				}
+			}
+			r.check(after, "C16.matched", fn, "successful answer of a collection reader", ret.Pos(), "given after read_list matched the brackets", "a collection is returned on a path that never went through read_list: its closing token was not compared with the closer of its opener (an unmatched closer of another kind is silently accepted, and the enclosing form loses its own closer)")
+		}
+	}
+	r.floor("C16.matched", "successful answers of collection readers", nm, 3)
 	// template: errors.New(a + end + b) in read_list where end is parameter 2
 	var tmplParts []ssa.Value
 	var tmplCall *ssa.Call
@@ -708,9 +760,12 @@ func checkC16(w *World, r *Report) {
 	// who may say "incomplete": the message shape the REPL takes for "keep reading" is built only where the
 	// token stream really ends inside an open bracket (the template in read_list) and for the raw-string
 	// delimiter (read_atom); any other place that builds such a message classifies input by another criterion
-	r.rule("C16.eof-sites", "error messages of the shape the REPL's classifier recognises as 'incomplete' are built only by read_list's template and read_atom's raw-string case: no other function of the reader decides that a text is incomplete")
+	r.rule("C16.eof-sites", "error messages of the shape the REPL's classifier recognises as 'incomplete' are built only by read_list's template and read_atom's raw-string case: no other function of the module (reader, READ and its wrappers, REPL) decides that a text is incomplete")
 	nEof := 0
-	for _, fn := range w.pkgFuncs("reader") {
+	for _, fn := range w.Funcs {
+		if !inModule(fn) || isTestFunc(w, fn) {
+			continue
+		}
 		for _, b := range fn.Blocks {
 			for _, in := range b.Instrs {
 				c, ok := in.(*ssa.Call)
@@ -1033,6 +1088,7 @@ func checkC15(w *World, r *Report) {
 	// format: writer
 	var lineParts []string
 	var lineVals []ssa.Value
+	var lineTop *ssa.BinOp
 	for _, b := range add.Blocks {
 		for _, in := range b.Instrs {
 			bo, ok := in.(*ssa.BinOp)
@@ -1041,7 +1097,7 @@ func checkC15(w *World, r *Report) {
 			}
 			parts := concatParts(bo)
 			if len(parts) >= 5 && len(parts) > len(lineVals) {
-				lineVals = parts
+				lineVals, lineTop = parts, bo
 			}
 		}
 	}
@@ -1056,7 +1112,23 @@ func checkC15(w *World, r *Report) {
 			lineParts = append(lineParts, "<"+describeVal(e, p, 0)+">")
 		}
 	}
-	// expected shape: <acc> prefix <key> sep <PRINT> "\n"
+	// expected shape: <acc> prefix <key> sep <PRINT> "\n"; the accumulator is absent when each line is appended
+	// to a strings.Builder instead of being concatenated to the text so far
+	if len(lineParts) == 5 && lineParts[0] != "<acc>" {
+		toBuilder := false
+		if lineTop != nil && lineTop.Referrers() != nil {
+			for _, ref := range *lineTop.Referrers() {
+				if c, ok := ref.(*ssa.Call); ok {
+					if sc := c.Call.StaticCallee(); sc != nil && sc.Name() == "WriteString" && fnPkgPath(sc) == "strings" {
+						toBuilder = true
+					}
+				}
+			}
+		}
+		if toBuilder {
+			lineParts = append([]string{"<acc>"}, lineParts...)
+		}
+	}
 	okShape := len(lineParts) == 6 && lineParts[0] == "<acc>" && lineParts[4] == "<PRINT>" && lineParts[5] == "\n" && !strings.HasPrefix(lineParts[1], "<") && !strings.HasPrefix(lineParts[3], "<")
 	r.check(okShape, "C15.format", add, "shape of a preamble line", add.Pos(), strings.Join(lineParts, " + "), "preamble lines are not written as prefix + name + separator + PRINT(value) + line break: "+strings.Join(lineParts, " + "))
 	if !okShape {
@@ -1380,6 +1452,9 @@ func escapeAgreement(w *World, r *Report, e *Engine, rule string) {
 	if why != "" {
 		r.undecided(rule, nil, "reader string cases", token.NoPos, why)
 		return
+	}
+	for _, ret := range rs.foreign {
+		r.bad(rule, rs.fn, "string result decoded outside the un-escape table", ret.Pos(), "read_atom returns a string that is not the delimiter-stripped token passed through the replacement table: a value the printer escaped may come back decoded differently")
 	}
 	P, _ := replaceChain(ps.quoted[1])
 	if len(P) == 0 {
